@@ -53,9 +53,13 @@ __CPROVER_assigns(w->m.count_entries, w->m.bytes_keys, w->m.bytes_values, w->las
                   vg_cmp_ret, vg_cmp_calls, vg_cmp_a, vg_cmp_b, vg_cmp_la, vg_cmp_lb, vg_est_calls, vg_sep_calls, vg_flush_calls, vg_reset_calls, vg_append_calls, vg_app_src, vg_app_n,
                   vg_bba_calls, vg_bba_b, vg_bba_key, vg_bba_val, vg_bba_lk, vg_bba_lv, vg_seq, vg_flush_seq, vg_bba_seq, vg_sep_seq)
 /* the gate */
-__CPROVER_ensures(vg_cmp_calls == (__CPROVER_old(w->m.count_entries) > 0 ? 1 : 0))
+/* entries whose lengths the format's 32-bit entry header cannot hold are refused before anything else (every accepted entry must
+ * read back, C01); for all other entries the gate is exactly the ordering rule of C08 */
+#define VG_FITS (len_key <= UINT32_MAX && len_val <= UINT32_MAX)
+__CPROVER_ensures(__CPROVER_return_value == mtbl_res_success ==> VG_FITS)
+__CPROVER_ensures(vg_cmp_calls == ((VG_FITS && __CPROVER_old(w->m.count_entries) > 0) ? 1 : 0))
 __CPROVER_ensures(vg_cmp_calls == 1 ==> (vg_cmp_a == key && vg_cmp_la == len_key && vg_cmp_b == w->last_key->_v && vg_cmp_lb == __CPROVER_old(w->last_key->_n)))
-__CPROVER_ensures((__CPROVER_return_value == mtbl_res_success) == (__CPROVER_old(w->m.count_entries) == 0 || vg_cmp_ret > 0))
+__CPROVER_ensures(VG_FITS ==> ((__CPROVER_return_value == mtbl_res_success) == (__CPROVER_old(w->m.count_entries) == 0 || vg_cmp_ret > 0)))
 /* a refused add changes nothing */
 __CPROVER_ensures(__CPROVER_return_value != mtbl_res_success ==> (w->m.count_entries == __CPROVER_old(w->m.count_entries) && w->m.bytes_keys == __CPROVER_old(w->m.bytes_keys) && w->m.bytes_values == __CPROVER_old(w->m.bytes_values)
                   && w->last_key->_n == __CPROVER_old(w->last_key->_n) && vg_est_calls == 0 && vg_sep_calls == 0 && vg_flush_calls == 0 && vg_reset_calls == 0 && vg_append_calls == 0 && vg_bba_calls == 0))
